@@ -4,7 +4,8 @@
 From Coq Require Import ZArith List Bool.
 Import ListNotations.
 Require Import Grist.Model.ActionLog Grist.Model.ActionLogEnc Grist.Proofs.ActionLog_proofs Grist.Proofs.ActionLog_calc
-  Grist.Proofs.ActionLog_frame Grist.Proofs.ActionLog_flush2 Grist.Proofs.ActionLog_stage3 Grist.Proofs.ActionLogEnc_laws.
+  Grist.Proofs.ActionLog_frame Grist.Proofs.ActionLog_flush2 Grist.Proofs.ActionLog_stage3
+  Grist.Model.DocEffects GristGen.DocActions_gen Grist.Proofs.DocActions_bridge Grist.Proofs.ActionLogEnc_laws.
 Open Scope Z_scope.
 
 (* The statement at full strength, for a class `wf_events` of event lists: replaying the undo list of a
@@ -154,6 +155,24 @@ Proof. intros O L s0 g D m H Hwf Hfr. exact (gi_flush O L s0 g D m H Hwf Hfr). Q
 Theorem C01_flush_in_general : forall O (sm : summary O) S U,
   flush_all O sm (S, U) = Ok (S ++ all_sblocks O (prune O sm), all_fronts O sm ++ U ++ all_blocks O (prune O sm)).
 Proof. intros O sm S U. apply flush_all_gen. Qed.
+
+(* The deciding code of undo construction, REGENERATED from /repo on every run (harness/da2v.py -> gen/DocActions_gen.v):
+   - gen_effects: for every method of docactions.DocActions, in source order, the undo actions it appends, its calls on
+     out_actions.summary, its document mutations, early returns and guards (local names normalised);
+   - gen_skeletons: ActionSummary._changes_to_actions, Engine._get_undo_checkpoint and Engine._undo_to_checkpoint statement
+     by statement.
+   They are bridged to the tables the ActionLog model was written from, and apply_doc is proved to follow, for every doc
+   action, one path of the regenerated effect program (which undo constructors, which summary calls, in which order). *)
+Theorem C01_code_effects_bridge : gen_effects = model_effects.
+Proof. exact gen_effects_bridge. Qed.
+
+Theorem C01_code_glue_bridge : gen_skeletons = model_skeletons.
+Proof. exact gen_skeletons_bridge. Qed.
+
+Theorem C01_code_undo_paths : forall O a s s' u ops,
+  apply_doc O a s = Ok (s', (u, ops)) -> act_names_ok O a ->
+  In (map (kind_of O) u, map (okind O) ops) (paths (effects_of O a)).
+Proof. intros O a s s' u ops H Hn. exact (apply_doc_paths O a s s' u ops H Hn). Qed.
 
 (* Each doc action is undone by the undo actions it appended, except for the cells in `lossy` (restored by
    the engine through the calc summary, by recalculation, or by the conversion delta of doModifyColumn). *)
